@@ -382,6 +382,7 @@ impl TargetApi for Poisonable<RetryingLockCollection<CL>> {
     poison_api_read!(RetryingLockCollection<CL>);
 }
 coll_api!(RefLockCollection<'static, CML>, CML);
+coll_api!(RUnit, CML);
 coll_api!(BoxedLockCollection<&'static CML>, &'static CML);
 coll_api!(RetryingLockCollection<&'static CML>, &'static CML);
 impl TargetApi for Poisonable<BoxedLockCollection<&'static CML>> {
